@@ -570,6 +570,10 @@ fn corpus_seg() -> Vec<(&'static str, Vec<Float>)> {
         ("corpus-common-start", f([0., 0., 0., 1., 0., 0., 0., 0., 0., 0., 1., 0., 0., 0., 0.])),
         // contains_point parametrised on a noise component
         ("corpus-noise-axis", f([0., 0., 0., 1e-15, 1., 0., 5., 5., 5., 6., 6., 5., 0., 2., 0.])),
+        // sub-epsilon noise in the x extent (cos(pi/2) = 6.1e-17): the axis guard must skip x and parametrise on y
+        ("corpus-subeps-axis", f([0., 0., 0., 6.123233995736766e-17, 1., 0., 5., 5., 5., 6., 6., 5., 0., 2., 0.])),
+        ("corpus-subeps-axis", f([0., 0., 0., 6.123233995736766e-17, 1., 0., 5., 5., 5., 6., 6., 5., 3.0616169978683830e-17, 0.5, 0.])),
+        ("corpus-subeps-axis", f([1., 0., 2., 1., -1.2246467991473532e-16, 5., 5., 5., 5., 6., 6., 5., 1., 0., 7.])),
         // F11: short edges at 17 degrees are "parallel"
         ("corpus-short", f([0., 0., 0., 0.05, 0., 0., 0., -0.01, 0., 0.04, 0.01, 0., 0.02, 0., 0.])),
         // the unit tests' own fixtures
